@@ -105,3 +105,9 @@ CHECKS["C19"] = {
   "text": "1-4 strategies with generated programs over a generated market mix (incl. ones leaving supplies, debts, liquidity positions, vaults, option holdings, GLP / GM open), generated order and worker count 2..n; each strategy's account history (net value, balances, every market's balance fields), operation outcomes, record classes and final raw positions, written from finalize(), must equal those of the same strategy run alone by a manager with freshly built inputs - on the threads=1 path and on the fork-pool path. Sampled exploration.",
   "note": "OS scheduling of the pool workers is not controlled. The forked path runs in a harness subprocess per case (the manager sets the start method once per process); one in four cases exercises it.",
 }
+
+CHECKS["C04"] = {
+  "technique": "Hypothesis generated operation sequences (programs as data with run-time selectors, oversized / boundary arguments, small wallets, closed option market) on a frozen multi-market universe of real market objects; deep state snapshot before / after every raising call; recorded-transaction replay for multi-transaction helpers",
+  "text": "Up to 30 operations of all six market families and the broker per case, in any reachable state; whenever a call raises (insufficient balance of either token, unsafe health factor / collateral ratio, dust, flag mismatch, zero / invalid argument, unknown position / vault / instrument, closed market, insufficient depth, over-large repay / withdraw / sell) the snapshot (wallet, positions, supplies / debts and flags, vault fields and id counter, option cash / holdings, GLP / GM amounts, last_tick, visible order book, action-log length) must be unchanged; rejected add_liquidity_by_value / even_rebalance / remove_all_liquidity must equal 'before + the constituent transactions that were recorded'. Sampled exploration.",
+  "note": "A zero wallet balance equals an absent entry. Memo caches are C13's subject. Negative amounts are outside the domain.",
+}
